@@ -1129,6 +1129,8 @@ class Interp:
                 return iconst(a[1] // b[1] if op == 'div' else a[1] % b[1])
             if op == 'div':
                 return ('idiv', a, b)
+            if op == 'rem':
+                return ('irem', a, b)          # uninterpreted: a − b·⌊a/b⌋ is not used by any rule
             if op in ('shl', 'shr', 'shl_unchecked', 'shr_unchecked') and a[0] == 'ic' and b[0] == 'ic' and 0 <= b[1] < 64:
                 return iconst(a[1] << b[1] if op.startswith('shl') else a[1] >> b[1])
             raise Unsupported('integer binop %s' % op)
